@@ -483,6 +483,11 @@ def _hoist_heap_reads(P, e, g, snapshot):
                     return n        # methods are looked up when called
                 name = f"__hoisted_read_{count[0]}"
                 count[0] += 1
+                # the value as it is NOW: a list that is mutated later (e.g. extended with this very comprehension) must not be seen in its later state
+                if isinstance(v, MList):
+                    v = MList(v.seq)
+                elif isinstance(v, list):
+                    v = list(v)
                 snapshot[name] = v
                 return ast.copy_location(ast.Name(id=name, ctx=ast.Load()), n)
             return self.generic_visit(n)
@@ -501,6 +506,7 @@ def _hoist_heap_reads(P, e, g, snapshot):
         new.key, new.value = Hoist().visit(new.key), Hoist().visit(new.value)
     else:
         new.elt = Hoist().visit(new.elt)
+    new.generators[-1].ifs = [Hoist().visit(c) for c in new.generators[-1].ifs]
     return new if count[0] else None
 
 
@@ -565,8 +571,10 @@ def comprehension(P, e, kind):
             P.frames.append(f2)
             try:
                 P.assign(g.target, P.seq_at(seq, i))
-                conds = [P.truth(P.eval(c)) for c in g.ifs]
+                conds = [P.truth(P.eval(c)) for c in (hoisted.generators[-1].ifs if hoisted is not None else g.ifs)]
                 keep = z3.And(*[zbool(c) for c in conds]) if conds else True
+                if hoisted is not None:
+                    return keep, ((P.eval(hoisted.key), P.eval(hoisted.value)) if kind == "dict" else P.eval(hoisted.elt))
                 return keep, elt_value()
             finally:
                 P.frames.pop()
@@ -600,6 +608,40 @@ class SFilter(Sym):
 
     def __init__(self, seq, pred_elt):
         self.seq, self.pred_elt = seq, pred_elt
+
+
+def filter_to_seq(P, filt):
+    """The list a filtered comprehension over a symbolic-length sequence builds: a sub-sequence of unknown length m.
+    Exactness is kept quantifier-free where it matters: m <= n; m < n only with a witness index that is dropped; element j is the value at a kept index
+    IDX(j) and IDX is strictly increasing on the indices that are looked at; m == n makes IDX the identity."""
+    if getattr(filt, "_as_seq", None) is not None:
+        return filt._as_seq
+    n = zint(P.seq_len(filt.seq))
+    tag = P._fresh_name("kept")
+    m = z3.Int(tag + "_len")
+    IDX = z3.Function(tag + "_index", z3.IntSort(), z3.IntSort())
+    P.assume(z3.And(m >= 0, m <= n))
+    w = z3.Int(tag + "_dropped_witness")
+    # evaluate the predicate at the witness only on the branch where something is dropped
+    seen = []
+
+    def at(j):
+        zj = zint(j)
+        idx = IDX(zj)
+        P.assume(z3.And(idx >= zj, idx < n, z3.Implies(m == n, idx == zj)))
+        keep, val = filt.pred_elt(mk_int(idx))
+        P.assume(zbool(keep))
+        for zk, ik in seen:
+            P.assume(z3.And(z3.Implies(zk < zj, ik < idx), z3.Implies(zj < zk, idx < ik), z3.Implies(zj == zk, idx == ik)))
+        seen.append((zj, idx))
+        return val
+    if P.branch(m < n):
+        P.assume(z3.And(w >= 0, w < n))
+        keep_w, _ = filt.pred_elt(mk_int(w))
+        P.assume(z3.Not(zbool(keep_w)))
+    seq = SSeq(mk_int(m), at, tag="filtered")
+    filt._as_seq = seq
+    return seq
 
 
 class DictOfSeq(Sym):
